@@ -1,7 +1,14 @@
 """_mpi_fakempi.py — fake MPI communicator for NIFTy checks (real MPI cannot be loaded here: libmpi is missing).
 
-Every rank runs in a FORKED child process (nifty.cl.random is module-global state, so ranks must not share a
-process); all communicator calls go through a hub in the parent, which gives
+Two execution modes with the same semantics and the same Result:
+  mode="coop" (default): ONE forked child process runs all ranks as cooperatively scheduled threads — exactly one rank
+      executes at a time, control changes hands only inside communicator calls, and the module-global state of
+      `nifty.cl.random` (`_sseq`, `_rng`; the only rank-specific global state in nifty.cl) is saved/installed at every
+      switch, so every rank sees its own private RNG stacks.  No inter-process latency: fast on a loaded machine, and
+      the schedule is fully deterministic given `seed`.
+  mode="procs": every rank runs in its own FORKED child process connected to a hub in the parent by pipes (true
+      process isolation of all module state; slower: every communicator call is a round trip through the OS).
+In both modes all communicator calls go through one scheduler, which gives
 
   * SYNCHRONOUS point-to-point semantics: `send/Send` returns only when the matching `recv/Recv` has been posted
     (the strictest behaviour MPI allows; eager buffering of small messages is what hides deadlocks in real runs);
@@ -14,7 +21,7 @@ process); all communicator calls go through a hub in the parent, which gives
 
 API
 ---
-run(nranks, fn, *args, seed=None, timeout=120.0, quiet=True) -> Result
+run(nranks, fn, *args, seed=None, timeout=120.0, quiet=True, mode="coop") -> Result
     child r executes `fn(comm, *args)` with `comm = FakeComm` of that rank (args are inherited through fork, no
     pickling); the return value must be picklable.  Fork BEFORE importing jax (raises if jax is loaded).
 Result.values[r]   return value of rank r (None if it did not return)
@@ -210,9 +217,202 @@ def _child(rank, size, conn, fn, args, quiet):
             os._exit(code)
 
 
-def run(nranks, fn, *args, seed=None, timeout=120.0, quiet=True):
+def run(nranks, fn, *args, seed=None, timeout=120.0, quiet=True, mode="coop"):
     if "jax" in sys.modules:
         raise RuntimeError("fakempi.run forks: call it before jax is imported")
+    if mode == "coop":
+        return _run_coop(nranks, fn, args, seed, timeout, quiet)
+    return _run_procs(nranks, fn, args, seed, timeout, quiet)
+
+
+# ---------------------------------------------------------------------------------------------------------
+# mode "coop": one forked child, ranks = cooperatively scheduled threads
+class _CoopComm(FakeComm):
+    def __init__(self, rank, size, sched):
+        self._rank, self._size, self._sched = rank, size, sched
+
+    def mark(self, label):
+        self._sched.res.calls[self._rank].append(["mark", str(label)])
+        self._sched.res.descs[self._rank].append("")
+
+    def _call(self, name, peer, payload, desc=""):
+        s, r = self._sched, self._rank
+        s.res.calls[r].append([name, peer])
+        s.res.descs[r].append(desc)
+        if (name in P2P_SEND or name in P2P_RECV) and not (isinstance(peer, int) and 0 <= peer < self._size):
+            raise FakeMPIError(f"invalid rank {peer}")
+        s.pending[r] = (name, peer, payload)
+        s.back.release()          # hand control to the scheduler ...
+        s.go[r].acquire()         # ... and wait to be resumed
+        tag, data = s.reply.pop(r)
+        if tag == "err":
+            raise FakeMPIError(data)
+        return data
+
+
+class _CoopSched:
+    def __init__(self, n, fn, args, seed):
+        import threading
+        self.n, self.fn, self.args = n, fn, args
+        self.res = Result(n)
+        self.rng = random.Random(seed) if seed is not None else None
+        self.pending, self.reply = {}, {}
+        self.go = [threading.Semaphore(0) for _ in range(n)]
+        self.back = threading.Semaphore(0)
+        self.finished = set()
+        self.failed = set()
+        self.comms = [_CoopComm(r, n, self) for r in range(n)]
+        try:
+            import nifty.cl.random as rnd
+            self.rnd = rnd
+            blob = pickle.dumps((rnd._sseq, rnd._rng))
+            self.state = [pickle.loads(blob) for _ in range(n)]
+        except ImportError:
+            self.rnd, self.state = None, None
+        self.threads = [threading.Thread(target=self._body, args=(r,), daemon=True) for r in range(n)]
+
+    def _body(self, r):
+        self.go[r].acquire()
+        try:
+            val = self.fn(self.comms[r], *self.args)
+            self.res.values[r] = pickle.loads(pickle.dumps(val))   # same copy semantics as a process boundary
+            self.res.returned[r] = True
+        except BaseException as e:  # noqa: BLE001
+            self.res.errors[r] = [type(e).__name__, str(e)[:2000]]
+            self.res.tracebacks = getattr(self.res, "tracebacks", {})
+            self.res.tracebacks[r] = traceback.format_exc()[-3000:]
+            self.failed.add(r)
+        self.finished.add(r)
+        self.back.release()
+
+    def _resume(self, r):
+        if self.rnd is not None:
+            self.rnd._sseq, self.rnd._rng = self.state[r]
+        mod = sys.modules.get("mpi4py.MPI")
+        if mod is not None:
+            mod.COMM_WORLD = self.comms[r]
+        self.go[r].release()
+        self.back.acquire()
+        if self.rnd is not None:
+            self.state[r] = (self.rnd._sseq, self.rnd._rng)
+
+    def _enabled(self):
+        ts = []
+        n, pending = self.n, self.pending
+        for b, (name, peer, _) in sorted(pending.items()):
+            if name in P2P_SEND:
+                q = pending.get(peer)
+                if q is not None and q[0] in P2P_RECV and q[1] == b and peer != b:
+                    ts.append(("p2p", b, peer))
+        if len(pending) == n:
+            names = {(p[0], p[1]) for p in pending.values()}
+            if len(names) == 1 and next(iter(names))[0] in COLLECTIVES:
+                ts.append(("coll",) + next(iter(names)))
+        return ts
+
+    def _fire(self, t):
+        pending, reply, res, n = self.pending, self.reply, self.res, self.n
+        if t[0] == "p2p":
+            _, b, a = t
+            sname, _, payload = pending.pop(b)
+            rname, _, _ = pending.pop(a)
+            res.order.append(["p2p", b, a, sname + "/" + rname])
+            if P2P_SEND[sname] != P2P_RECV[rname]:
+                msg = f"message kind mismatch: {sname} of rank {b} matched by {rname} of rank {a}"
+                reply[a] = reply[b] = ("err", msg)
+            else:
+                reply[a], reply[b] = ("ok", payload), ("ok", None)
+            return [a, b]
+        _, name, root = t
+        res.order.append(["coll", name, root])
+        pls = [pending[r][2] for r in range(n)]
+        pending.clear()
+        for r in range(n):
+            if name in ("allgather", "allreduce"):
+                reply[r] = ("ok", pls)
+            elif name == "gather":
+                reply[r] = ("ok", pls if r == root else None)
+            elif name in ("bcast", "Bcast"):
+                reply[r] = ("ok", pls[root])
+            else:
+                reply[r] = ("ok", None)
+        return list(range(n))
+
+    def run(self):
+        for t in self.threads:
+            t.start()
+        runnable = list(range(self.n))
+        while True:
+            ts = self._enabled()
+            opts = [("run", r) for r in runnable] + [("fire", t) for t in ts]
+            if not opts:
+                if len(self.finished) < self.n:
+                    self.res.deadlock = dict(
+                        blocked={r: [self.pending[r][0], self.pending[r][1]] for r in sorted(self.pending)},
+                        finished=sorted(self.finished - self.failed), failed=sorted(self.failed))
+                break
+            kind, x = opts[self.rng.randrange(len(opts))] if self.rng is not None else opts[0]
+            if kind == "run":
+                runnable.remove(x)
+                self._resume(x)
+            else:
+                runnable += self._fire(x)
+        return self.res
+
+
+def _run_coop(nranks, fn, args, seed, timeout, quiet):
+    sys.stdout.flush()
+    sys.stderr.flush()
+    pc, cc = Pipe(duplex=False)
+    pid = os.fork()
+    if pid == 0:
+        code = 0
+        try:
+            pc.close()
+            if quiet:
+                devnull = os.open(os.devnull, os.O_WRONLY)
+                os.dup2(devnull, 1)
+                os.dup2(devnull, 2)
+            _install_mpi4py_stub(None)
+            res = _CoopSched(nranks, fn, args, seed).run()
+            cc.send_bytes(pickle.dumps(res))
+        except BaseException:  # noqa: BLE001
+            code = 3
+            try:
+                cc.send_bytes(pickle.dumps(("crash", traceback.format_exc()[-3000:])))
+            except Exception:  # noqa: BLE001
+                pass
+        finally:
+            os._exit(code)
+    cc.close()
+    res = None
+    try:
+        if pc.poll(timeout):
+            try:
+                res = pickle.loads(pc.recv_bytes())
+            except (EOFError, OSError):
+                res = None
+    finally:
+        pc.close()
+        try:
+            done, _ = os.waitpid(pid, os.WNOHANG)
+            if done == 0:
+                os.kill(pid, 9)
+                os.waitpid(pid, 0)
+        except ChildProcessError:
+            pass
+    if isinstance(res, Result):
+        return res
+    out = Result(nranks)
+    if res is None:
+        out.timed_out = True
+        out.deadlock = dict(blocked={}, finished=[], failed=[], note="no result within the time limit (or child died)")
+    else:
+        out.errors = [["HarnessCrash", res[1]]] * nranks
+    return out
+
+
+def _run_procs(nranks, fn, args, seed, timeout, quiet):
     sys.stdout.flush()
     sys.stderr.flush()
     conns, pids = [], []
